@@ -4,7 +4,7 @@ from typing import Optional
 from ..core import Report
 from ..fjfront import Stl
 from ..pyfacts import Repo
-from ..stlrules import rule_carry, rule_ret_restore, rule_closure, rule_extent, rule_lut, rule_alias, rule_scratch, rule_const_fits, rule_jumpword_restore, rule_alias_safe
+from ..stlrules import rule_carry, rule_ret_restore, rule_closure, rule_extent, rule_lut, rule_alias, rule_scratch, rule_const_fits, rule_carry_top, rule_jumpword_restore, rule_alias_safe
 
 FILES = ['flipjump/stl/hex/memory.fj', 'flipjump/stl/hex/logics.fj', 'flipjump/stl/hex/math.fj', 'flipjump/stl/hex/math_basic.fj',
          'flipjump/stl/hex/shifts.fj', 'flipjump/stl/hex/cond_jumps.fj', 'flipjump/stl/hex/mul.fj', 'flipjump/stl/hex/div.fj',
@@ -23,6 +23,7 @@ def check(rep: Report, repo: Optional[Repo] = None) -> None:
     rule_scratch(rep, stl, 'C04', FILES, 45)
     rule_alias(rep, stl, 'C04', FILES, 4)
     rule_const_fits(rep, stl, 'C04', FILES, 3)
+    rule_carry_top(rep, stl, 'C04', FILES, 6)
     rule_jumpword_restore(rep, stl, 'C04', FILES, 8)
     rule_alias_safe(rep, stl, 'C04', FILES, 1)
     rep.assumptions.append('footprints assume generic position: distinct symbolic operands of a compile-time `==` / `!=` aliasing test denote distinct variables')
@@ -32,7 +33,7 @@ def check(rep: Report, repo: Optional[Repo] = None) -> None:
 
 
 MANIFEST = dict(
-    technique='own .fj front end: link closure, doc-extent vs computed cell footprint, constant-folded lookup tables, carry bracketing; scratch / alias / jump-word typestate / constant-width rules',
+    technique='own .fj front end: link closure, doc-extent vs computed cell footprint, constant-folded lookup tables, carry bracketing; scratch / alias / jump-word typestate / constant-width rules; in-place arithmetic reaches the top of the assigned extent (CARRY-TOP)',
     level_text='Also: documented scratch cells are initialised before use, documented alias hazards are respected, a borrowed jump word is given back on every path out of a macro (typestate over the macro CFG), and constants written into fixed-width vectors fit with the sign bit free for sign-tested counters. Static, PARTIAL: decides four structural necessary conditions of C04 from the macro text - every call and global label '
                'reachable from the hex files resolves (name and arity); each documented vector extent equals the computed cell footprint '
                'of that parameter (154 frozen triples library-wide, instantiated for sizes 4/5/8); the or/and/add/sub/cmp/mul leaf tables '
